@@ -9,13 +9,26 @@ pub enum Guard<T> {
   Panic(String),
 }
 
+thread_local! {
+  static IN_GUARD: std::cell::Cell<u32> = std::cell::Cell::new(0);
+}
+
+/// Panics inside `guard` (code under test) are data and stay silent; a panic of the
+/// harness itself is printed so that it shows up as a tool error.
 pub fn install_quiet_panic_hook() {
-  std::panic::set_hook(Box::new(|_| {}));
+  std::panic::set_hook(Box::new(|info| {
+    if IN_GUARD.with(|g| g.get()) == 0 {
+      eprintln!("harness panic: {info}");
+    }
+  }));
 }
 
 /// Run `f`, turning a panic into data.
 pub fn guard<T, F: FnOnce() -> T>(f: F) -> Guard<T> {
-  match catch_unwind(AssertUnwindSafe(f)) {
+  IN_GUARD.with(|g| g.set(g.get() + 1));
+  let r = catch_unwind(AssertUnwindSafe(f));
+  IN_GUARD.with(|g| g.set(g.get() - 1));
+  match r {
     Ok(v) => Guard::Done(v),
     Err(e) => {
       let msg = if let Some(s) = e.downcast_ref::<&str>() {
